@@ -1,6 +1,6 @@
 """C19 ARM64 JIT output is equivalent to the interpreter."""
 import astq
-from rules import a64hsem, a64patch, a64sem, genreset, jit, jitcross, rtpreserve, a64dsread, a64fp
+from rules import a64hsem, a64patch, a64sem, genreset, jit, jitcross, rtpreserve, a64dsread, a64fp, cfrcross
 
 LEVEL = 'other'
 TECHNIQUE = ('cross-target parse (clang --target=aarch64) of the back-end that this host never compiles + sibling agreement with the interpreter on resolved-AST feature vectors, known-bits and A64 logical-immediate decoding of emitted constants, max-path code-size bound against the assembled template, known-bits abstract execution of the immediate helpers over 529 immediate classes'
@@ -33,6 +33,9 @@ EXPLANATION += ' A64-DSITEM-HSEM.'
 EXPLANATION += ' A64-FP-HSEM.'
 CLAIM = CLAIM.replace(' The floating-point handlers remain covered by the structural rules only.', '')
 CLAIM += (' The nine floating-point handlers are validated at word level on a vector register file of lane terms: operation, operand registers and lanes of specification 5.3, the memory operand converted from the two 32-bit integers at the masked scratchpad address, FDIV_M through the mask operation and registers of the loop head, FSCAL_R with the register the prologue fills with 0x80F0000000000000 (A64-FP-HSEM).')
+
+EXPLANATION += ' A64-CFR-BITS.'
+CLAIM += (' CFROUND is decided bit by bit for all 64 rotation counts, v1 and v2: source bit imm mod 64 reaches FPCR<23>, the next one FPCR<22> (Table 4.3.1 in the RMode encoding), no other FPCR bit and no VM register changes, the v2 branch tests bits 2-5 of the rotated value and skips exactly the rest of the handler (A64-CFR-BITS).')
 
 
 def run(ctx, R):
@@ -70,3 +73,4 @@ def run(ctx, R):
     rtpreserve.rule_store_order(ctx, R, 'a64')
     a64dsread.rule_dsitem(ctx, R)
     a64fp.rule_fp_hsem(ctx, R)
+    cfrcross.rule_a64(ctx, R)
